@@ -1324,29 +1324,51 @@ class Interp:
                 break
         return self._loop_finish(st, cur, breaks, outs, frame, depth)
 
-    def instance_written_names(self):
-        """Attribute names some function of the package stores through an
-        object (x.name = ..., setattr(x, 'name', ...),
-        object.__setattr__(x, 'name', ...))."""
-        names = getattr(self.prog, '_inst_written', None)
-        if names is None:
-            names = set()
-            for fi in self.prog.functions.values():
-                for n in ast.walk(fi.node):
-                    if isinstance(n, ast.Attribute) and isinstance(
-                            n.ctx, (ast.Store, ast.Del)):
+    def instance_written_names(self, cls=None):
+        """Attribute names some function of the package may store on an
+        instance of ``cls`` (x.name = ..., setattr(x, 'name', ...),
+        object.__setattr__(x, 'name', ...)): stores through ``self`` count
+        only in methods of a class related to cls, stores through any other
+        receiver always."""
+        cache = getattr(self.prog, '_inst_written', None)
+        if cache is None:
+            cache = self.prog._inst_written = {}
+        key = cls.qualname if cls is not None else None
+        if key in cache:
+            return cache[key]
+        names = set()
+        for fi in self.prog.functions.values():
+            a = getattr(fi.node, 'args', None)
+            ps = (a.posonlyargs + a.args) if a is not None else []
+            first = ps[0].arg if ps and fi.owner is not None and \
+                fi.kind != 'staticmethod' else None
+            related = cls is None or fi.owner is None or \
+                self.prog.is_subclass(cls, fi.owner) or \
+                self.prog.is_subclass(fi.owner, cls)
+
+            def counts(recv):
+                if isinstance(recv, ast.Name) and recv.id == first:
+                    return related
+                return True
+            for n in ast.walk(fi.node):
+                if isinstance(n, ast.Attribute) and isinstance(
+                        n.ctx, (ast.Store, ast.Del)):
+                    if counts(n.value):
                         names.add(n.attr)
-                    elif isinstance(n, ast.Call):
-                        f = n.func
-                        fn = f.id if isinstance(f, ast.Name) else (
-                            f.attr if isinstance(f, ast.Attribute) else '')
-                        if fn in ('setattr', '__setattr__', 'delattr',
-                                  '__delattr__'):
-                            for a in n.args[:3]:
-                                if isinstance(a, ast.Constant) and \
-                                        isinstance(a.value, str):
-                                    names.add(a.value)
-            self.prog._inst_written = names
+                elif isinstance(n, ast.Call):
+                    f = n.func
+                    fn = f.id if isinstance(f, ast.Name) else (
+                        f.attr if isinstance(f, ast.Attribute) else '')
+                    if fn in ('setattr', '__setattr__', 'delattr',
+                              '__delattr__') and n.args:
+                        recv = n.args[0]
+                        if not counts(recv):
+                            continue
+                        for x in n.args[:3]:
+                            if isinstance(x, ast.Constant) and \
+                                    isinstance(x.value, str):
+                                names.add(x.value)
+        cache[key] = names
         return names
 
     def _note_static_loop(self, st, n):
@@ -2116,7 +2138,7 @@ class Interp:
                 if v is not ABSENT and o.open and not isinstance(
                         v, (FuncInfo, ClassInfo)) and not (
                         name.startswith('__') and name.endswith('__')) \
-                        and name in self.instance_written_names():
+                        and name in self.instance_written_names(o.cls):
                     # a class-level default that some function of the
                     # package also stores on instances: a caller-owned
                     # object may carry its own value (left by an earlier
